@@ -7,6 +7,7 @@
  *        Ghost stream: g_fpos = number of bytes consumed so far; "the byte at stream position g_bk has the value g_bv"
  *        (ghost value idiom: g_bk symbolic and fixed by the harness, so this speaks about every byte of the file).
  *  C06_fseek_cur(f, n)         fseek(f, n, SEEK_CUR) on a read stream: the next n bytes are skipped (ISO C 7.21.9.2).
+ *  C06_fseek_set(f, pos)       fseek(f, pos, SEEK_SET): only the requested position is recorded (g_seek_to).
  *  C06_writer(data, size)      the `writer` callback of Image::save_helper (fwritex / std::string::append in the two callers):
  *        consumes exactly `size` bytes starting at `data` (memory-safety obligation: they are readable).
  *        Ghost stream: g_wpos = bytes emitted so far, g_wcalls = number of calls, g_first_size = size of the first call,
@@ -45,6 +46,13 @@ static inline void C06_freadx(FILE* f, void* data, size_t size) {
   }
   g_fpos += size;
   g_reads++;
+}
+
+size_t g_seek_to;
+static inline int C06_fseek_set(FILE* f, size_t pos) {
+  (void)f;
+  g_seek_to = pos;
+  return 0;
 }
 
 static inline int C06_fseek_cur(FILE* f, size_t n) {
